@@ -560,6 +560,22 @@ def rule_collision(ctx, rule='C01.COLLISION'):
         miss = len(after) == 1 and norm(after[0].value) == '(None, None)'
         ok = bool(rets) and good and not brk and miss
         why = f'every in-loop return under hash equality only={good}, no break={not brk}, miss returns (None, None)={miss}'
+    # a miss is the absence of the row, never a property of the amount: an output of value zero is a UTXO like any other
+    # (`if not value:` on the decoded integer answers "unknown" for it; its spender is dropped from the mempool view)
+    for g_ in (_lo, f):
+        amount_tests = []
+        for p_ in P.paths(g_.node.body):
+            for t, pol in p_.decisions():
+                subj = t.operand if isinstance(t, ast.UnaryOp) and isinstance(t.op, ast.Not) else t
+                if isinstance(subj, (ast.Compare, ast.BoolOp)):
+                    continue
+                if any(isinstance(c, ast.Call) and isinstance(c.func, ast.Name) and c.func.id.startswith('unpack_') for c in ast.walk(subj)):
+                    amount_tests.append(norm(t)[:80])
+        ctx.check(not amount_tests, rule, ctx.key(g_, None, 'miss decided on the row'),
+                  'no branch tests a decoded integer for truth: presence is decided on the raw row',
+                  f'a decoded value is tested for truth ({sorted(set(amount_tests))[:2]}): a zero amount / number reads as "not found"',
+                  loc=ctx.loc(g_, g_.node))
+        n += 1
     ctx.check(ok, rule, ctx.key(lh, None, 'full-hash check'),
               'a prevout lookup returns a row only under full-hash equality, examines every row under the prefix, and reports a miss otherwise',
               'a prevout lookup can return a row without full-hash equality, or stops before all rows under the prefix were examined: ' + why +
